@@ -669,6 +669,9 @@ func builtinSet(i *Interpreter, args []Expr, env *Environment) (interface{}, err
 	if !ok {
 		return nil, fmt.Errorf("set() expects first argument to be an object, got %T", objArg)
 	}
+	if name, shared := i.moduleLevelRoot(args[0], env); shared {
+		return nil, fmt.Errorf("set() cannot change module-level '%s'", name)
+	}
 	keyArg, err := i.EvaluateExpression(args[1], env)
 	if err != nil {
 		return nil, err
@@ -696,6 +699,9 @@ func builtinRemove(i *Interpreter, args []Expr, env *Environment) (interface{}, 
 	obj, ok := objArg.(map[string]interface{})
 	if !ok {
 		return nil, fmt.Errorf("remove() expects first argument to be an object, got %T", objArg)
+	}
+	if name, shared := i.moduleLevelRoot(args[0], env); shared {
+		return nil, fmt.Errorf("remove() cannot change module-level '%s'", name)
 	}
 	keyArg, err := i.EvaluateExpression(args[1], env)
 	if err != nil {
